@@ -147,6 +147,9 @@ class ReshapeReshape(RewriteRuleClassBase):
                     self._new_shape[i] = dim
 
         # Constraints for shape.
+        allowzero_attr = context.nodes[0].attributes.get("allowzero")
+        if allowzero_attr is not None and allowzero_attr.is_ref():
+            return check_result.fail("allowzero is a reference attribute.")
         self._allowzero = context.nodes[0].attributes.get_int("allowzero", 0)
         self._new_shape_name = f"{context.output_values[0].name}/shape"
         if self._allowzero == 1 and any(self._new_shape == 0):
@@ -320,6 +323,9 @@ class Flatten2Reshape(RewriteRuleClassBase):
         check_result = MatchResult()
         self._new_shape = np.array([-1, -1], "int64")
 
+        axis_attr = context.root.attributes.get("axis")
+        if axis_attr is not None and axis_attr.is_ref():
+            return check_result.fail("axis is a reference attribute.")
         # Convert axis in a positive value if possible.
         axis = context.root.attributes.get_int("axis", 1)
         input_rank = None
